@@ -221,6 +221,36 @@ pub fn build_cases(ctx: &Ctx) -> Vec<Vec<String>> {
             }
         }
     }
+    // the same struct name wanted in two different branches (suffix assignment), for every pair of the pool
+    for pair in super::names::subsets(COLLISION_POOL.len(), 2) {
+        let (x, y) = (COLLISION_POOL[pair[0]], COLLISION_POOL[pair[1]]);
+        for t in [
+            format!("<r><{x}><p/></{x}><{y}><p/></{y}></r>"),
+            format!("<r><{x}><p><{x}/></p></{x}><{y}><p><{y}/></p></{y}></r>"),
+            format!("<r><p><{x}><c/></{x}><{y}><c/></{y}></p><{x}><c/></{x}></r>"),
+        ] {
+            let c = vec![t];
+            if seen.insert(c.clone()) {
+                cases.push(c);
+            }
+        }
+    }
+    // very long names (directly, and through the concatenation of ten nested names)
+    for len in [40usize, 63, 64, 65, 100, 300] {
+        let name = format!("n{}", "x".repeat(len));
+        cases.push(vec![format!("<r><{n} k=\"v\"><{n}/></{n}><b><{n} k=\"v\"/></b></r>", n = name)]);
+    }
+    {
+        let mut s = String::from("<doc>");
+        for _ in 0..10 {
+            s.push_str("<section k=\"v\">");
+        }
+        for _ in 0..10 {
+            s.push_str("</section>");
+        }
+        s.push_str("</doc>");
+        cases.push(vec![s]);
+    }
     // wide elements: many struct-typed children with subtrees of different sizes
     for width in [7usize, 8, 9, 12, 17] {
         for variant in 0..3 {
